@@ -179,18 +179,99 @@ OUTSIDE_MODEL = ("comptime-block-as-comptime-arg-codegen-panic", "comptime-param
                  "const-data-of-file-member-in-foreign-body-panic")
 
 
+def split_files(src):
+    """'main text //// FILE a.capy\n text ...' -> [(name, text)] with main first (named p.capy)"""
+    files = []
+    name, cur = "p.capy", []
+    for l in src.split("\n"):
+        if l.startswith("//// FILE "):
+            files.append((name, "\n".join(cur) + "\n"))
+            name, cur = l[len("//// FILE "):].strip(), []
+        else:
+            cur.append(l)
+    files.append((name, "\n".join(cur) + "\n"))
+    return files
+
+
 def run_e2e(capy, src):
     with C.scratch("verif-c15-") as d:
-        open(os.path.join(d, "p.capy"), "w").write(src.split("//// FILE other.capy\n")[0])
-        if "//// FILE other.capy\n" in src:
-            open(os.path.join(d, "other.capy"), "w").write(src.split("//// FILE other.capy\n")[1])
+        for name, text in split_files(src):
+            open(os.path.join(d, name), "w").write(text)
         rc, out = C.run([capy, "build", "p.capy", "--mod-dir", C.REPO], cwd=d, timeout=180)
         exe = os.path.join(d, "out", "p")
         if rc != 0 or not os.path.exists(exe):
             tail = [l for l in out.split("\n") if l.strip() and not l.startswith("split_aggregate")]
-            return ("BUILD-FAILED", "\n".join(tail[-8:])[-800:])
+            keep = [l for l in tail if "panicked" in l or l.startswith("error")][:3] + tail[-4:]
+            return ("BUILD-FAILED", "\n".join(keep)[-900:])
         rc2, out2 = C.run([exe], cwd=d, timeout=30)
         return ("RAN:%d" % rc2, out2)
+
+
+# ---- imported-global chains: the VALUE must come from the right file -------------------------
+TRUE_VALUE = 5
+CH_NAMES = {1: "X", 2: "Y", 3: "Z"}
+CH_SHADOW = {1: 2, 2: 3, 3: 4}          # values of same-named globals in the importing file
+
+
+def chain_cases():
+    """other.X with X :: literal / X :: Y / X :: Y :: Z (also through a second import), with and without
+    same-named globals of different values in the importing file, declaration order varied, in the
+    three value-carrying const positions.  files: 0 = main (p.capy), 1 = other.capy, 2 = third.capy."""
+    cases = []
+    for pos in ("A", "D", "C"):
+        ty = POS_TY[pos]
+        for length in (1, 2, 3):
+            for second in ((False,) if length == 1 else (False, True)):
+                for shadow in (False, True):
+                    for order in (0, 1):
+                        c = Case()
+                        c.pos, c.kind, c.order = pos, "imported-chain-%d%s%s" % (
+                            length, "-via-second-import" if second else "", "-shadowed" if shadow else ""), order
+                        other, third = [], []
+                        w_other, w_third = [], []
+                        if length == 1:
+                            other.append("X : %s : %d;" % (ty, TRUE_VALUE))
+                            w_other.append("1 0 1 I %d" % TRUE_VALUE)
+                        else:
+                            tail_file, tail_w = (third, w_third) if second else (other, w_other)
+                            if second:
+                                other.append('third :: #import("third.capy");')
+                                other.append("X : %s : third.Y;" % ty)
+                                w_other.append("1 0 1 Q 2 2")
+                            else:
+                                other.append("X : %s : Y;" % ty)
+                                w_other.append("1 0 1 R 2")
+                            if length == 2:
+                                tail_file.append("Y : %s : %d;" % (ty, TRUE_VALUE))
+                                tail_w.append("2 0 1 I %d" % TRUE_VALUE)
+                            else:
+                                tail_file.append("Y : %s : Z;" % ty)
+                                tail_file.append("Z : %s : %d;" % (ty, TRUE_VALUE))
+                                tail_w += ["2 0 1 R 3", "3 0 1 I %d" % TRUE_VALUE]
+                        if order:
+                            imp = [l for l in other if "#import" in l]
+                            other = imp + [l for l in reversed(other) if "#import" not in l]
+                            third = list(reversed(third))
+                        shadows = ["%s : %s : %d;" % (CH_NAMES[k], ty, CH_SHADOW[k]) for k in (1, 2, 3)] if shadow else []
+                        w_main = ["%d 0 1 I %d" % (k, CH_SHADOW[k]) for k in (1, 2, 3)] if shadow else []
+                        if pos == "A":
+                            use = 'main :: () { a : [other.X]i32; core.println("#@ ", a.len); }'
+                        elif pos == "C":
+                            use = 'take :: (comptime v: %s) { core.println("#@ ", v); }\nmain :: () { take(other.X); }' % ty
+                        else:
+                            use = ('E :: enum { A | other.X, B };\nmain :: () { switch i in core.meta.get_type_info(E.A) { '
+                                   '.Variant => core.println("#@ ", i.discriminant), _ => core.println("not a variant"), } }')
+                        head = 'core :: #mod("core");\nother :: #import("other.capy");\n'
+                        body = ("\n".join(shadows) + "\n" + use) if order == 0 else (use + "\n" + "\n".join(shadows))
+                        src = head + body + "\n//// FILE other.capy\n" + "\n".join(other) + "\n"
+                        if third:
+                            src += "//// FILE third.capy\n" + "\n".join(third) + "\n"
+                        c.source = src
+                        files = [(0, w_main), (1, w_other)] + ([(2, w_third)] if w_third else [])
+                        c.tok = "W %s %d %s 0 Q 1 1" % (pos, len(files), " ".join(
+                            "%d %d %s" % (f, len(g), " ".join(g)) if g else "%d 0" % f for f, g in files))
+                        cases.append(c)
+    return cases
 
 
 TYPE_POS = [  # (kind, helpers, params, call, locals, type expr, const by the rule)
@@ -313,13 +394,54 @@ def run(tier, seed):
             fl.stream("end to end: reflected array length vs model value", len(srcs), ediffs, efirst)
             v.coverage["e2e_lengths_checked"] = ran
             v.coverage["evaluations"] += ran
+        # ---- imported-global chains: reflected VALUE vs the world model ---------------------------
+        if capy:
+            ccs = chain_cases()
+            cmodel = C.run_lines([drv], [c.tok for c in ccs], indexed=False)
+            couts = C.parallel_map(lambda c: run_e2e(capy, c.source), ccs)
+            cdiffs, cfirst, cran = 0, None, 0
+            for c, m, (status, out) in zip(ccs, cmodel, couts):
+                got = None
+                for l in out.split("\n"):
+                    if l.startswith("#@ "):
+                        got = l[3:].strip()
+                pay = {"key": "chain:" + C.sha(c.source), "stream": "imported-global chains", "source": c.source,
+                       "position": c.pos, "kind": c.kind, "order": c.order, "world": c.tok, "model": m, "status": status,
+                       "reflected_value": got, "denoted_value": TRUE_VALUE,
+                       "output": out[-700:] if status != "RAN:0" or got is None else ""}
+                if m != "ACC:i%d" % TRUE_VALUE:
+                    fl.broken.append({"what": "world model does not give the denoted value for a generated chain", **pay})
+                    continue
+                if status != "RAN:0" or got is None:
+                    v.failing("imported-const-chain-does-not-build:%s" % c.pos, pay)
+                    cdiffs += 1
+                    cfirst = cfirst or pay
+                    continue
+                cran += 1
+                if got != str(TRUE_VALUE):
+                    # direct oracle: the reflected value is not the value the expression denotes
+                    v.failing("const-value-from-wrong-global:%s" % c.pos, pay)
+                    cdiffs += 1
+                    cfirst = cfirst or pay
+            fl.stream("imported-global chains: reflected value vs world model (array length, discriminant, comptime argument)",
+                      len(ccs), cdiffs, cfirst)
+            v.coverage["chain_values_checked"] = cran
+            v.coverage["evaluations"] += len(ccs)
+            v.coverage["distinct_nontrivial"] += sum(1 for c in ccs if "chain-1" not in c.kind)
+            v.add_samples([{"chain_source": ccs[len(ccs) // 2].source, "world": ccs[len(ccs) // 2].tok}])
         v.coverage["rule"] = (
             "exhaustive: 12 expression kinds (literal, `::` local, `:=` local, global, imported global, extern global, comptime "
             "block, comptime parameter, arithmetic, paren, call, member) directly, through an immutable local, through a mutable "
             "local and through a global, in 4 positions (array length, enum discriminant, comptime argument, global body), helper "
             "globals declared before and after the use, plus 8 literal kinds as comptime arguments and 9 type-annotation cases; "
+            "plus 60 imported-global chains (other.X with X :: literal / Y / Y :: Z, also through a second import; with and without "
+            "same-named different-valued globals in the importing file; two declaration orders) in the array-length, discriminant "
+            "and comptime-argument positions, built and run, the reflected value (a.len / Type_Info discriminant / printed "
+            "argument) compared with the value the multi-file world model says the expression denotes; "
             "non-trivial = anything but a bare literal")
     v.assumptions = [
+        "multi-file lookup (which file a global name is resolved in) is modelled by the world layer (get_const_w / const_data_w) "
+        "and exercised by the imported-global-chain stream; the single-expression stream still uses the inlined tree model",
         "expression kinds are mapped to model nodes by the generator (a member of an imported file is the Member-of-Ty::File arm, "
         "modelled by the same node as a same-file global)",
         "eval_comptime (the JIT) is a parameter of the model: its result is supplied by the generator; a crash inside it is reported "
